@@ -91,6 +91,13 @@ Proof.
   - destruct (set_first t t' l) eqn:S; try discriminate. inversion H; subst. constructor; eauto.
 Qed.
 
+Lemma set_first_Forall_fst : forall (P : N -> Prop) k a b l l',
+  set_first (k, a) (k, b) l = Some l' -> Forall (fun t => P (fst t)) l -> Forall (fun t => P (fst t)) l'.
+Proof.
+  intros. eapply set_first_Forall; eauto. simpl.
+  apply set_first_in in H. rewrite Forall_forall in H0. apply (H0 _ H).
+Qed.
+
 Lemma remove_first_Forall : forall (P : N * tstate -> Prop) t l l', remove_first t l = Some l' -> Forall P l -> Forall P l'.
 Proof.
   induction l; simpl; intros; try discriminate. inversion H0; subst.
@@ -136,22 +143,667 @@ Ltac break_match :=
   end.
 
 Ltac cstep_cases H :=
-  unfold cstep, put_wire, http_done in H;
-  repeat (match type of H with context [match ?e with _ => _ end] => destruct e eqn:? end);
+  unfold cstep, put_wire, http_done in H; simpl in H;
+  repeat (match type of H with context [match ?e with _ => _ end] => destruct e eqn:?; simpl in H end);
   try discriminate H; inversion H; subst; clear H.
+
+Lemma set_first_src : forall t t' l l', set_first t t' l = Some l' -> l <> [].
+Proof. intros. destruct l; [discriminate H | discriminate]. Qed.
+
+Lemma remove_first_length : forall t l l', remove_first t l = Some l' -> length l = S (length l').
+Proof.
+  induction l; simpl; intros; try discriminate.
+  destruct (task_eqb a t).
+  - inversion H; auto.
+  - destruct (remove_first t l) eqn:S; try discriminate. inversion H; subst. simpl. f_equal. eauto.
+Qed.
+
+Lemma remove_first_src : forall t l l', remove_first t l = Some l' -> l <> [].
+Proof. intros. destruct l; [discriminate H | discriminate]. Qed.
+
+Ltac norm :=
+  repeat match goal with
+         | H : is_nil ?l = true |- _ => destruct l; [clear H | discriminate H]
+         | H : is_nil ?l = false |- _ => destruct l; [discriminate H | clear H]
+         | H : _ || _ = true |- _ => apply orb_true_iff in H; destruct H
+         | H : _ || _ = false |- _ => apply orb_false_iff in H; destruct H
+         | H : _ && _ = true |- _ => apply andb_true_iff in H; destruct H
+         | H : _ && _ = false |- _ => apply andb_false_iff in H; destruct H
+         | H : set_first _ _ _ = Some _ |- _ =>
+           pose proof (set_first_length _ _ _ _ H); pose proof (set_first_nonnil _ _ _ _ H);
+           pose proof (set_first_src _ _ _ _ H); clear H
+         | H : remove_first _ _ = Some _ |- _ =>
+           pose proof (remove_first_length _ _ _ H); pose proof (remove_first_src _ _ _ H); clear H
+         end.
 
 Lemma cinv_cstep : forall sg x a x', cinv x -> cstep sg x a = Some x' -> cinv x'.
 Proof.
   intros sg [kd inb tk q w ph wr ws cl tok sb] a x' I H.
   unfold cinv in *; simpl in *.
-  destruct a; cstep_cases H; simpl in *; subst; simpl in *;
-    repeat match goal with
-           | H : set_first _ _ _ = Some _ |- _ =>
-             pose proof (set_first_length _ _ _ _ H); pose proof (set_first_nonnil _ _ _ _ H); clear H
-           end;
+  destruct a; cstep_cases H; simpl in *; subst; simpl in *; norm; simpl in *;
+    try (destruct kd; simpl in * );
     try (intuition (try discriminate; try congruence; try lia; auto); fail).
-  (* CEnqueue on a WS connection whose writer ... *)
-  all: try (destruct I as (I1 & I2 & I3 & I4 & I5);
-            repeat split; intros; try discriminate; try congruence; auto;
-            try (destruct I2 as [I2a I2b]; auto); fail).
+  destruct wr; try discriminate.
+  destruct I as (I1 & [I2a I2b] & I3 & I4 & I5).
+  repeat split; intros; auto; try discriminate.
+Qed.
+
+Lemma cinv_csend : forall x k x', cinv x -> csend x k = Some x' -> cinv x'.
+Proof.
+  intros [kd inb tk q w ph wr ws cl tok sb] k x' I H. unfold csend in H; simpl in H.
+  destruct cl; inversion H; subst. exact I.
+Qed.
+
+(* PDone is absorbing; tokens never come back; the client stays gone *)
+Lemma cstep_done : forall sg x a x', cstep sg x a = Some x' -> c_phase x = PDone -> c_phase x' = PDone.
+Proof.
+  intros sg [kd inb tk q w ph wr ws cl tok sb] a x' H D. simpl in D. subst.
+  destruct a; cstep_cases H; simpl in *; auto.
+Qed.
+
+Lemma cstep_tok : forall sg x a x', cstep sg x a = Some x' -> c_tok x = false -> c_tok x' = false.
+Proof.
+  intros sg [kd inb tk q w ph wr ws cl tok sb] a x' H D. simpl in D. subst.
+  destruct a; cstep_cases H; simpl in *; auto.
+Qed.
+
+Lemma cstep_closed : forall sg x a x', cstep sg x a = Some x' -> c_closed x = true -> c_closed x' = true.
+Proof.
+  intros sg [kd inb tk q w ph wr ws cl tok sb] a x' H D. simpl in D. subst.
+  destruct a; cstep_cases H; simpl in *; auto.
+Qed.
+
+Lemma cstep_kind : forall sg x a x', cstep sg x a = Some x' -> c_kind x' = c_kind x.
+Proof.
+  intros sg [kd inb tk q w ph wr ws cl tok sb] a x' H.
+  destruct a; cstep_cases H; simpl in *; auto.
+Qed.
+
+(* in PDone nothing is read any more: the set of tasks can only shrink or advance *)
+Lemma cstep_done_tasks : forall sg x a x' (P : N -> Prop), cstep sg x a = Some x' -> c_phase x = PDone ->
+  Forall (fun t => P (fst t)) (c_tasks x) -> Forall (fun t => P (fst t)) (c_tasks x').
+Proof.
+  intros sg [kd inb tk q w ph wr ws cl tok sb] a x' P H D F. simpl in D, F. subst.
+  destruct a; cstep_cases H; simpl in *; auto;
+    try (eapply set_first_Forall_fst; eauto; fail); try (eapply remove_first_Forall; eauto; fail).
+Qed.
+
+(* ------------------------------------------------------------------ ids *)
+
+Definition ids_lt (n : N) (x : conn) : Prop :=
+  Forall (fun k => (k < n)%N) (c_inbox x) /\ Forall (fun t => (fst t < n)%N) (c_tasks x).
+
+Lemma ids_lt_mono : forall n m x, (n <= m)%N -> ids_lt n x -> ids_lt m x.
+Proof.
+  intros n m x L [A B]. split; eapply Forall_impl; try eassumption; simpl; intros; lia.
+Qed.
+
+Lemma ids_cstep : forall sg n x a x', ids_lt n x -> cstep sg x a = Some x' -> ids_lt n x'.
+Proof.
+  intros sg n [kd inb tk q w ph wr ws cl tok sb] a x' [A B] H. unfold ids_lt in *. simpl in *.
+  destruct a; cstep_cases H; simpl in *; subst;
+    repeat match goal with H : Forall _ (_ :: _) |- _ => inversion H; subst; clear H end;
+    try (split; auto; fail);
+    try (split; auto; try (apply Forall_app; split; auto); try (constructor; auto); fail).
+  all: split; auto; try (eapply (set_first_Forall_fst (fun k => (k < n)%N)); eauto; fail);
+    try (eapply remove_first_Forall; eauto; fail).
+Qed.
+
+Lemma ids_csend : forall n x x', ids_lt n x -> csend x n = Some x' -> ids_lt (N.succ n) x'.
+Proof.
+  intros n [kd inb tk q w ph wr ws cl tok sb] x' [A B] H. unfold csend in H. simpl in *.
+  destruct cl; inversion H; subst. split; simpl.
+  - apply Forall_app. split; [eapply Forall_impl; try eassumption; simpl; intros; lia | constructor; auto; lia].
+  - eapply Forall_impl; try eassumption; simpl; intros; lia.
+Qed.
+
+(* ------------------------------------------------------------------ replies are conserved *)
+
+(* calls of id k on connection x whose handler has started and whose reply is somewhere between the handler
+   and the transport *)
+Definition live (x : conn) (k : N) : nat :=
+  cntt (k, TExec) (c_tasks x) + cntt (k, TRet) (c_tasks x) + count_occ N.eq_dec (c_queue x) k + count_occ N.eq_dec (c_wire x) k.
+
+Lemma count_occ_snoc : forall (l : list N) a k, count_occ N.eq_dec (l ++ [a]) k = count_occ N.eq_dec l k + b2n (N.eqb a k).
+Proof.
+  intros. rewrite count_occ_app. simpl. destruct (N.eq_dec a k); destruct (N.eqb_spec a k); simpl; try congruence; lia.
+Qed.
+
+Lemma task_eqb_k : forall k s k' s', task_eqb (k, s) (k', s') = N.eqb k k' && tstate_eqb s s'.
+Proof. reflexivity. Qed.
+
+Definition start_inc_c (a : cact) (k : N) : nat := match a with CStart k0 => b2n (N.eqb k0 k) | _ => 0 end.
+
+Lemma cntt_nil : forall u, cntt u [] = 0.
+Proof. reflexivity. Qed.
+
+Lemma live_cstep : forall sg x a x' k, cinv x -> cstep sg x a = Some x' -> c_closed x' = false ->
+  live x' k = live x k + start_inc_c a k.
+Proof.
+  intros sg [kd inb tk q w ph wr ws cl tok sb] a x' k I H C.
+  unfold cinv, live in *. simpl in *.
+  destruct a; cstep_cases H; simpl in *; subst; simpl in *; try discriminate;
+    repeat match goal with
+           | HH : set_first _ _ _ = Some _ |- _ =>
+             pose proof (set_first_cnt _ _ _ _ (k, TExec) HH); pose proof (set_first_cnt _ _ _ _ (k, TRet) HH); clear HH
+           | HH : remove_first _ _ = Some _ |- _ =>
+             pose proof (remove_first_cnt _ _ _ (k, TExec) HH); pose proof (remove_first_cnt _ _ _ (k, TRet) HH);
+             pose proof (remove_first_src _ _ _ HH); clear HH
+           | HH : is_nil ?l = true |- _ => destruct l; [clear HH | discriminate HH]
+           end;
+    rewrite ?task_eqb_k in *; simpl tstate_eqb in *; rewrite ?andb_false_r, ?andb_true_r in *;
+    rewrite ?cntt_app, ?cntt_cons, ?cntt_nil, ?task_eqb_k, ?count_occ_snoc; simpl tstate_eqb;
+    rewrite ?andb_false_r, ?andb_true_r; simpl;
+    repeat match goal with |- context [N.eq_dec ?a ?b] => destruct (N.eq_dec a b) end;
+    repeat match goal with |- context [N.eqb ?a ?b] => destruct (N.eqb_spec a b) end;
+    repeat match goal with HH : context [N.eqb ?a ?b] |- _ => destruct (N.eqb_spec a b) end;
+    simpl in *; try congruence; try lia;
+    try (exfalso; intuition congruence).
+  all: try (destruct I as (_ & -> & _); simpl; lia).
+Qed.
+
+Lemma live_csend : forall x n x' k, csend x n = Some x' -> live x' k = live x k.
+Proof.
+  intros [kd inb tk q w ph wr ws cl tok sb] n x' k H. unfold csend in H. simpl in H.
+  destruct cl; inversion H; subst. reflexivity.
+Qed.
+
+Lemma csend_closed : forall x n x', csend x n = Some x' -> c_closed x' = c_closed x.
+Proof.
+  intros [kd inb tk q w ph wr ws cl tok sb] n x' H. unfold csend in H. simpl in H.
+  destruct cl; inversion H; subst. reflexivity.
+Qed.
+
+Lemma csend_same : forall x n x', csend x n = Some x' ->
+  c_phase x' = c_phase x /\ c_tok x' = c_tok x /\ c_tasks x' = c_tasks x /\ c_kind x' = c_kind x.
+Proof.
+  intros [kd inb tk q w ph wr ws cl tok sb] n x' H. unfold csend in H. simpl in H.
+  destruct cl; inversion H; subst. simpl. auto.
+Qed.
+
+(* ------------------------------------------------------------------ the state invariant *)
+
+Definition sinv (s : state) : Prop :=
+  Forall cinv (s_conns s) /\ Forall (ids_lt (s_next s)) (s_conns s) /\
+  (s_accept s = ADone -> Forall (fun x => c_tok x = false) (s_conns s)) /\
+  (s_resolved s = true -> all_dropped s = true).
+
+Lemma sinv_init : sinv init.
+Proof. unfold sinv, init; simpl. repeat split; auto; discriminate. Qed.
+
+Lemma all_dropped_accept : forall s, all_dropped s = true -> s_accept s = ADone.
+Proof. unfold all_dropped, accept_done. intros. destruct (s_accept s); simpl in *; auto; discriminate. Qed.
+
+Lemma all_dropped_conns : forall s, all_dropped s = true -> forallb phase_done (s_conns s) = true.
+Proof. unfold all_dropped. intros. apply andb_true_iff in H. tauto. Qed.
+
+Lemma phase_done_eq : forall x, phase_done x = true <-> c_phase x = PDone.
+Proof. unfold phase_done. intros. destruct (c_phase x); split; congruence. Qed.
+
+Ltac step_cases :=
+  unfold step in *; simpl in *;
+  repeat match goal with
+         | |- context [match ?e with _ => _ end] => destruct e eqn:?; simpl in *
+         end.
+
+Lemma all_dropped_step : forall s a, all_dropped s = true -> all_dropped (fst (step s a)) = true.
+Proof.
+  intros s a D. pose proof (all_dropped_accept _ D) as A. pose proof (all_dropped_conns _ D) as C.
+  destruct a; unfold step; rewrite ?A; simpl; auto.
+  - destruct (nth_error (s_conns s) c) eqn:E; simpl; auto.
+    destruct (csend c0 (s_next s)) eqn:E2; simpl; auto.
+    unfold all_dropped, accept_done. simpl. rewrite A. simpl.
+    apply forallb_upd; auto. apply phase_done_eq. destruct (csend_same _ _ _ E2) as (P & _). rewrite P.
+    apply phase_done_eq. eapply forallb_nth; eauto.
+  - destruct (nth_error (s_conns s) c) eqn:E; simpl; auto.
+    destruct (cstep (sig s) c0 a) eqn:E2; simpl; auto.
+    unfold all_dropped, accept_done. simpl. rewrite A. simpl.
+    apply forallb_upd; auto. apply phase_done_eq. eapply cstep_done; eauto.
+    apply phase_done_eq. eapply forallb_nth; eauto.
+  - destruct (s_handles s); simpl; auto. rewrite D. auto.
+  - destruct (s_handles s); simpl; auto.
+  - destruct (s_handles s); simpl; auto.
+  - destruct (s_handles s); simpl; auto. destruct (all_dropped s && negb (s_resolved s)); simpl; auto.
+Qed.
+
+Lemma Forall_app_one : forall A (P : A -> Prop) l v, Forall P l -> P v -> Forall P (l ++ [v]).
+Proof. intros. apply Forall_app. split; auto. Qed.
+
+Lemma sinv_same : forall s s', sinv s -> s_conns s' = s_conns s -> s_accept s' = s_accept s ->
+  s_next s' = s_next s -> (s_resolved s' = true -> s_resolved s = true) -> sinv s'.
+Proof.
+  intros s s' (I1 & I2 & I3 & I4) C A N R. unfold sinv, all_dropped, accept_done in *.
+  rewrite C, A, N. repeat split; auto.
+Qed.
+
+Lemma step_sinv : forall s a, sinv s -> sinv (fst (step s a)).
+Proof.
+  intros s a I. pose proof I as (I1 & I2 & I3 & I4).
+  assert (R : s_resolved s = true -> s_accept s = ADone) by (intros; apply all_dropped_accept; auto).
+  destruct a; unfold step.
+  - (* Connect *)
+    destruct (s_accept s) eqn:A; simpl; auto.
+    unfold sinv; simpl. repeat split; try (apply Forall_app_one; auto).
+    + apply cinv_new.
+    + split; simpl; constructor.
+    + rewrite A. discriminate.
+    + intros Rs. specialize (R Rs). congruence.
+  - (* ClientSend *)
+    destruct (nth_error (s_conns s) c) eqn:E; simpl; auto.
+    destruct (csend c0 (s_next s)) eqn:E2; simpl; auto.
+    unfold sinv; simpl. repeat split.
+    + apply Forall_upd; auto. eapply cinv_csend; eauto. eapply Forall_nth; eauto.
+    + apply Forall_upd.
+      * eapply Forall_impl; try eassumption. intros. eapply ids_lt_mono; try eassumption. lia.
+      * eapply ids_csend; eauto. eapply Forall_nth; eauto.
+    + intros A. apply Forall_upd; auto. destruct (csend_same _ _ _ E2) as (_ & T & _). rewrite T.
+      exact (Forall_nth _ (fun x => c_tok x = false) _ _ _ (I3 A) E).
+    + intros Rs. specialize (I4 Rs).
+      pose proof (all_dropped_step s (ClientSend c) I4) as Q. unfold step in Q. rewrite E, E2 in Q. exact Q.
+  - (* Conn *)
+    destruct (nth_error (s_conns s) c) eqn:E; simpl; auto.
+    destruct (cstep (sig s) c0 a) eqn:E2; simpl; auto.
+    unfold sinv; simpl. repeat split.
+    + apply Forall_upd; auto. eapply cinv_cstep; eauto. eapply Forall_nth; eauto.
+    + apply Forall_upd; auto. eapply ids_cstep; eauto. eapply Forall_nth; eauto.
+    + intros A. apply Forall_upd; auto. eapply cstep_tok; eauto.
+      exact (Forall_nth _ (fun x => c_tok x = false) _ _ _ (I3 A) E).
+    + intros Rs. specialize (I4 Rs).
+      pose proof (all_dropped_step s (Conn c a) I4) as Q. unfold step in Q. rewrite E, E2 in Q. exact Q.
+  - (* AcceptSeeStop *)
+    destruct (s_accept s) eqn:A; simpl; auto. destruct (sig s); simpl; auto.
+    unfold sinv; simpl. repeat split; auto; try discriminate. intros Rs. specialize (R Rs). congruence.
+  - (* AcceptDone *)
+    destruct (s_accept s) eqn:A; simpl; auto.
+    destruct (forallb (fun x => negb (c_tok x)) (s_conns s)) eqn:T; simpl; auto.
+    unfold sinv; simpl. repeat split; auto.
+    + intros _. rewrite Forall_forall. intros x Hx. rewrite forallb_forall in T. specialize (T _ Hx).
+      destruct (c_tok x); auto; discriminate.
+    + intros Rs. specialize (R Rs). congruence.
+  - destruct (s_handles s); simpl; auto. destruct (all_dropped s); simpl; auto;
+    try (eapply sinv_same; eauto; fail).
+  - destruct (s_handles s); simpl; auto; try (eapply sinv_same; eauto; fail).
+  - destruct (s_handles s); simpl; auto; try (eapply sinv_same; eauto; fail).
+  - destruct (s_handles s); simpl; auto.
+    destruct (all_dropped s && negb (s_resolved s)) eqn:G; simpl; auto.
+    apply andb_true_iff in G. destruct G as [G _].
+    destruct I as (J1 & J2 & J3 & J4). unfold sinv. simpl. repeat split; auto.
+Qed.
+
+Lemma run_sinv : forall tr s, sinv s -> sinv (run s tr).
+Proof. induction tr; simpl; intros; auto. apply IHtr, step_sinv; auto. Qed.
+
+Lemma run_app : forall t1 t2 s, run s (t1 ++ t2) = run (run s t1) t2.
+Proof. induction t1; simpl; intros; auto. Qed.
+
+(* ------------------------------------------------------------------ effectiveness, unfolded *)
+
+Lemma effective_conn : forall s c a, effective s (Conn c a) =
+  match nth_error (s_conns s) c with
+  | Some x => match cstep (sig s) x a with Some _ => true | None => false end
+  | None => false
+  end.
+Proof. intros. unfold effective, step. destruct (nth_error (s_conns s) c); auto. destruct (cstep (sig s) c0 a); auto. Qed.
+
+Lemma step_conn_some : forall s c a x x', nth_error (s_conns s) c = Some x -> cstep (sig s) x a = Some x' ->
+  fst (step s (Conn c a)) = set_conns s (upd c x' (s_conns s)).
+Proof. intros. unfold step. rewrite H, H0. reflexivity. Qed.
+
+Lemma step_conn_none : forall s c a, effective s (Conn c a) = false -> fst (step s (Conn c a)) = s.
+Proof.
+  intros s c a. rewrite effective_conn. unfold step. destruct (nth_error (s_conns s) c); auto.
+  destruct (cstep (sig s) c0 a); auto. discriminate.
+Qed.
+
+(* ------------------------------------------------------------------ connections persist, `closed` is monotone *)
+
+Lemma step_nth : forall s a c x, nth_error (s_conns s) c = Some x ->
+  exists x', nth_error (s_conns (fst (step s a))) c = Some x' /\ (c_closed x = true -> c_closed x' = true).
+Proof.
+  intros s a c x H.
+  destruct a; step_cases; eauto.
+  - exists x. split; auto. rewrite nth_error_app1; auto. apply nth_error_Some. congruence.
+  - destruct (Nat.eq_dec c0 c).
+    + subst. rewrite H in Heqo. inversion Heqo; subst. exists c2. split.
+      * eapply nth_error_upd_same; eauto.
+      * rewrite (csend_closed _ _ _ Heqo0). auto.
+    + exists x. rewrite nth_error_upd_other; auto.
+  - destruct (Nat.eq_dec c0 c).
+    + subst. rewrite H in Heqo. inversion Heqo; subst. exists c2. split.
+      * eapply nth_error_upd_same; eauto.
+      * eapply cstep_closed; eauto.
+    + exists x. rewrite nth_error_upd_other; auto.
+Qed.
+
+Lemma run_nth_closed : forall tr s c x, nth_error (s_conns s) c = Some x -> c_closed x = true ->
+  exists x', nth_error (s_conns (run s tr)) c = Some x' /\ c_closed x' = true.
+Proof.
+  induction tr; simpl; intros; eauto.
+  destruct (step_nth s a c x H) as (x1 & N1 & C1). eapply IHtr; eauto.
+Qed.
+
+(* ------------------------------------------------------------------ one step conserves replies *)
+
+Definition livec (s : state) (c : nat) (k : N) : nat :=
+  match nth_error (s_conns s) c with Some x => live x k | None => 0 end.
+
+Definition start_inc (s : state) (a : action) (c : nat) (k : N) : nat :=
+  match a with
+  | Conn c' (CStart k') => if Nat.eqb c' c && N.eqb k' k && effective s a then 1 else 0
+  | _ => 0
+  end.
+
+Lemma starts_cons : forall s a r c k, starts s (a :: r) c k = start_inc s a c k + starts (fst (step s a)) r c k.
+Proof. reflexivity. Qed.
+
+Lemma live_new : forall kd k, live (new_conn kd) k = 0.
+Proof. destruct kd; reflexivity. Qed.
+
+Lemma step_live : forall s a c k x1, sinv s ->
+  nth_error (s_conns (fst (step s a))) c = Some x1 -> c_closed x1 = false ->
+  live x1 k = livec s c k + start_inc s a c k.
+Proof.
+  intros s a c k x1 (I1 & _) H C. unfold livec.
+  destruct a.
+  - (* Connect *)
+    simpl start_inc. unfold step in H. destruct (s_accept s); simpl in H; try (rewrite H; lia).
+    destruct (nth_error (s_conns s) c) eqn:E.
+    + rewrite nth_error_app1 in H by (apply nth_error_Some; congruence). rewrite E in H. inversion H; subst. lia.
+    + apply nth_error_None in E. rewrite nth_error_app2 in H by auto.
+      destruct (c - length (s_conns s)) as [|m]; simpl in H.
+      * inversion H; subst. rewrite live_new. lia.
+      * destruct m; discriminate.
+  - (* ClientSend *)
+    simpl start_inc. unfold step in H.
+    destruct (nth_error (s_conns s) c0) eqn:E; simpl in H; try (rewrite H; lia).
+    destruct (csend c1 (s_next s)) eqn:E2; simpl in H; try (rewrite H; lia).
+    destruct (Nat.eq_dec c0 c).
+    + subst. rewrite (nth_error_upd_same _ _ _ _ _ E) in H. inversion H; subst. rewrite E.
+      rewrite (live_csend _ _ _ _ E2). lia.
+    + rewrite nth_error_upd_other in H by auto. rewrite H. lia.
+  - (* Conn *)
+    destruct (effective s (Conn c0 a)) eqn:Ef.
+    + rewrite effective_conn in Ef.
+      destruct (nth_error (s_conns s) c0) eqn:E; try discriminate.
+      destruct (cstep (sig s) c1 a) eqn:E2; try discriminate.
+      rewrite (step_conn_some _ _ _ _ _ E E2) in H. simpl in H.
+      destruct (Nat.eq_dec c0 c).
+      * subst. rewrite (nth_error_upd_same _ _ _ _ _ E) in H. inversion H; subst. rewrite E.
+        rewrite (live_cstep _ _ _ _ k (Forall_nth _ _ _ _ _ I1 E) E2 C).
+        f_equal. unfold start_inc, start_inc_c. destruct a; auto.
+        rewrite Nat.eqb_refl. simpl. rewrite effective_conn, E, E2. destruct (N.eqb k0 k); reflexivity.
+      * rewrite nth_error_upd_other in H by auto. rewrite H.
+        unfold start_inc. destruct a; try lia. apply Nat.eqb_neq in n. rewrite n. simpl. lia.
+    + rewrite (step_conn_none _ _ _ Ef) in H. rewrite H.
+      unfold start_inc. destruct a; try lia. rewrite Ef, andb_false_r. lia.
+  - simpl start_inc. unfold step in H. destruct (s_accept s); try destruct (sig s); simpl in H; rewrite H; lia.
+  - simpl start_inc. unfold step in H.
+    destruct (s_accept s); try destruct (forallb (fun x => negb (c_tok x)) (s_conns s)); simpl in H; rewrite H; lia.
+  - simpl start_inc. unfold step in H. destruct (s_handles s); try destruct (all_dropped s); simpl in H; rewrite H; lia.
+  - simpl start_inc. unfold step in H. destruct (s_handles s); simpl in H; rewrite H; lia.
+  - simpl start_inc. unfold step in H. destruct (s_handles s); simpl in H; rewrite H; lia.
+  - simpl start_inc. unfold step in H.
+    destruct (s_handles s); try destruct (all_dropped s && negb (s_resolved s)); simpl in H; rewrite H; lia.
+Qed.
+
+Lemma step_none_live : forall s a c k, nth_error (s_conns (fst (step s a))) c = None ->
+  livec s c k + start_inc s a c k = 0.
+Proof.
+  intros s a c k H. unfold livec.
+  destruct (nth_error (s_conns s) c) eqn:E.
+  - destruct (step_nth s a c _ E) as (x' & N1 & _). congruence.
+  - unfold start_inc. destruct a; auto. destruct a; auto.
+    destruct (Nat.eqb_spec c0 c); simpl; auto. subst.
+    rewrite effective_conn, E, andb_false_r. auto.
+Qed.
+
+Lemma run_live : forall tr s c k x', sinv s ->
+  nth_error (s_conns (run s tr)) c = Some x' -> c_closed x' = false ->
+  live x' k = livec s c k + starts s tr c k.
+Proof.
+  induction tr; intros s c k x' I H C.
+  - simpl in *. unfold livec. rewrite H. lia.
+  - rewrite starts_cons. simpl in H.
+    pose proof (step_sinv s a I) as I'.
+    rewrite (IHtr _ _ k _ I' H C).
+    unfold livec at 1.
+    destruct (nth_error (s_conns (fst (step s a))) c) eqn:E.
+    + destruct (c_closed c0) eqn:Cl.
+      * destruct (run_nth_closed tr _ _ _ E Cl) as (x2 & N2 & C2). congruence.
+      * rewrite (step_live s a c k c0 I E Cl). lia.
+    + pose proof (step_none_live s a c k E). lia.
+Qed.
+
+(* ------------------------------------------------------------------ what PDone means *)
+
+Lemma done_conn : forall x, cinv x -> c_phase x = PDone ->
+  c_writer x = WFin /\ c_queue x = [] /\ (c_closed x = false -> c_tasks x = []) /\
+  (c_tasks x <> [] -> c_kind x = KWs /\ c_closed x = true) /\ (c_kind x = KHttp -> c_tok x = false).
+Proof.
+  intros [kd inb tk q w ph wr ws cl tok sb] I D. unfold cinv in I. simpl in *. subst.
+  destruct kd.
+  - destruct I as (I1 & I2 & I3 & I4 & I5 & I6 & I7). repeat split; auto; try (intros; exfalso; auto; fail).
+    intros _. apply I7. auto.
+  - destruct I as (I1 & I2 & I3 & I4 & I5).
+    assert (W : wr = WFin) by auto. assert (S : ws = true) by (apply I2; auto).
+    repeat split; auto; try discriminate. intros T. destruct cl; auto. exfalso. apply T. auto.
+Qed.
+
+Lemma live_done : forall x k, cinv x -> c_phase x = PDone -> c_closed x = false ->
+  live x k = count_occ N.eq_dec (c_wire x) k.
+Proof.
+  intros x k I D C. destruct (done_conn x I D) as (_ & Q & T & _). unfold live. rewrite Q, (T C). reflexivity.
+Qed.
+
+(* ------------------------------------------------------------------ C10: started calls are answered *)
+
+Lemma started_calls_answered : forall tr c k x,
+  s_resolved (run init tr) = true ->
+  nth_error (s_conns (run init tr)) c = Some x -> c_closed x = false ->
+  count_occ N.eq_dec (c_wire x) k = starts init tr c k.
+Proof.
+  intros tr c k x R H C.
+  pose proof (run_sinv tr init sinv_init) as I.
+  destruct I as (I1 & I2 & I3 & I4). specialize (I4 R).
+  assert (D : c_phase x = PDone).
+  { apply phase_done_eq. eapply forallb_nth; eauto. apply all_dropped_conns; auto. }
+  rewrite <- (live_done x k (Forall_nth _ _ _ _ _ I1 H) D C).
+  rewrite (run_live tr init c k x sinv_init H C). unfold livec. simpl. destruct c; reflexivity.
+Qed.
+
+(* ------------------------------------------------------------------ C10: stopped only after everything *)
+
+Lemma stopped_after_all : forall tr, effective (run init tr) StoppedResolves = true ->
+  s_accept (run init tr) = ADone /\
+  Forall (fun x => c_phase x = PDone /\ c_tok x = false /\ c_writer x = WFin /\ c_queue x = [] /\
+                   (c_closed x = false -> c_tasks x = [])) (s_conns (run init tr)).
+Proof.
+  intros tr E. set (s := run init tr) in *.
+  pose proof (run_sinv tr init sinv_init) as (I1 & I2 & I3 & I4). fold s in I1, I2, I3, I4.
+  assert (D : all_dropped s = true).
+  { unfold effective, step in E. destruct (s_handles s); simpl in E; try discriminate.
+    destruct (all_dropped s); auto. }
+  pose proof (all_dropped_accept _ D) as A. split; auto.
+  rewrite Forall_forall. intros x Hx.
+  assert (P : c_phase x = PDone).
+  { apply phase_done_eq. pose proof (all_dropped_conns _ D) as F. rewrite forallb_forall in F. auto. }
+  rewrite Forall_forall in I1. destruct (done_conn x (I1 _ Hx) P) as (W & Q & T & _).
+  specialize (I3 A). rewrite Forall_forall in I3. repeat split; auto.
+Qed.
+
+(* ------------------------------------------------------------------ C10: nothing new after stopped *)
+
+Definition quiet (bound : N) (s : state) : Prop :=
+  sinv s /\ all_dropped s = true /\ Forall (fun x => Forall (fun t => (fst t < bound)%N) (c_tasks x)) (s_conns s).
+
+Lemma quiet_step : forall b s a, quiet b s -> quiet b (fst (step s a)).
+Proof.
+  intros b s a (I & D & T). split; [apply step_sinv; auto |]. split; [apply all_dropped_step; auto |].
+  pose proof (all_dropped_accept _ D) as A. pose proof (all_dropped_conns _ D) as C.
+  destruct a; step_cases; auto; try congruence.
+  - apply Forall_upd; auto. destruct (csend_same _ _ _ Heqo0) as (_ & _ & Tk & _). rewrite Tk.
+    eapply (Forall_nth _ (fun x => Forall (fun t => (fst t < b)%N) (c_tasks x))); eauto.
+  - apply Forall_upd; auto. eapply (cstep_done_tasks _ _ _ _ (fun k => (k < b)%N)); eauto.
+    + apply phase_done_eq. eapply forallb_nth; eauto.
+    + eapply (Forall_nth _ (fun x => Forall (fun t => (fst t < b)%N) (c_tasks x))); eauto.
+Qed.
+
+Lemma quiet_run : forall tr b s, quiet b s -> quiet b (run s tr).
+Proof. induction tr; simpl; intros; auto. apply IHtr, quiet_step; auto. Qed.
+
+Lemma nothing_after_stopped : forall tr1 tr2,
+  s_resolved (run init tr1) = true ->
+  (forall kd, effective (run init (tr1 ++ tr2)) (Connect kd) = false) /\
+  (forall c k, effective (run init (tr1 ++ tr2)) (Conn c (CStart k)) = true ->
+     (k < s_next (run init tr1))%N /\
+     exists x, nth_error (s_conns (run init (tr1 ++ tr2))) c = Some x /\ c_kind x = KWs /\ c_closed x = true).
+Proof.
+  intros tr1 tr2 R. rewrite run_app. set (s1 := run init tr1) in *.
+  pose proof (run_sinv tr1 init sinv_init) as I. fold s1 in I.
+  assert (Q : quiet (s_next s1) s1).
+  { split; auto. destruct I as (I1 & I2 & I3 & I4). split; auto.
+    eapply Forall_impl; try eassumption. intros x [_ B]. exact B. }
+  pose proof (quiet_run tr2 _ _ Q) as (I' & D & T). set (s2 := run s1 tr2) in *.
+  split.
+  - intros kd. unfold effective, step. rewrite (all_dropped_accept _ D). reflexivity.
+  - intros c k E. rewrite effective_conn in E.
+    destruct (nth_error (s_conns s2) c) eqn:N1; try discriminate.
+    destruct (cstep (sig s2) c0 (CStart k)) eqn:St; try discriminate.
+    unfold cstep in St. destruct (set_first (k, TSpawned) (k, TExec) (c_tasks c0)) eqn:SF; try discriminate.
+    pose proof (set_first_in _ _ _ _ SF) as In1.
+    split.
+    + pose proof (Forall_nth _ _ _ _ _ T N1) as B. simpl in B. rewrite Forall_forall in B. apply (B _ In1).
+    + exists c0. split; auto.
+      destruct I' as (I1 & _).
+      assert (P : c_phase c0 = PDone) by (apply phase_done_eq; eapply forallb_nth; eauto; apply all_dropped_conns; auto).
+      destruct (done_conn c0 (Forall_nth _ _ _ _ _ I1 N1) P) as (_ & _ & _ & K & _).
+      apply K. intro Z. rewrite Z in In1. destruct In1.
+Qed.
+
+(* ------------------------------------------------------------------ C10: stop twice, drop handles *)
+
+Lemma sig_mono : forall s a, sig s = true -> sig (fst (step s a)) = true.
+Proof.
+  intros s a H. unfold sig in *.
+  destruct a; step_cases; auto; try (apply orb_true_iff; auto; fail).
+  - rewrite Heqn in H. simpl in H. rewrite orb_false_r in H. rewrite H. reflexivity.
+  - rewrite Heqn0 in H. simpl in H. rewrite orb_false_r in H. rewrite H. reflexivity.
+Qed.
+
+Lemma stop_idempotent : forall s,
+  let s1 := fst (step s Stop) in
+  fst (step s1 Stop) = s1 /\
+  s_conns s1 = s_conns s /\ s_accept s1 = s_accept s /\ s_handles s1 = s_handles s /\
+  s_resolved s1 = s_resolved s /\ s_next s1 = s_next s /\
+  (snd (step s Stop) = OStopOk \/ snd (step s Stop) = OStopAlready \/ snd (step s Stop) = ONoHandle) /\
+  (snd (step s Stop) = OStopAlready <-> (s_handles s <> 0 /\ all_dropped s = true)) /\
+  (snd (step s1 Stop) = OStopOk \/ snd (step s1 Stop) = OStopAlready \/ snd (step s1 Stop) = ONoHandle).
+Proof.
+  intros s. unfold step. destruct (s_handles s) eqn:Hn; simpl.
+  - rewrite Hn. simpl. repeat split; auto; try (intros; discriminate). intros [X _]. congruence.
+  - destruct (all_dropped s) eqn:D; simpl; rewrite ?Hn; simpl.
+    + rewrite D. simpl. repeat split; auto. discriminate.
+    + unfold all_dropped, accept_done in *. simpl. rewrite D. simpl.
+      repeat split; auto; try (intros; discriminate). intros [_ X]. discriminate.
+Qed.
+
+Lemma drop_handle_harmless : forall s,
+  let s1 := fst (step s DropHandle) in
+  s_conns s1 = s_conns s /\ s_accept s1 = s_accept s /\ s_stop s1 = s_stop s /\ s_resolved s1 = s_resolved s /\
+  s_handles s1 = pred (s_handles s) /\
+  (snd (step s DropHandle) = OOk \/ snd (step s DropHandle) = ONoHandle) /\
+  (s_handles s = 1 -> sig s1 = true).
+Proof.
+  intros s. unfold step. destruct (s_handles s) eqn:Hn; simpl; repeat split; auto; try discriminate.
+  intros E. inversion E; subst. unfold sig. simpl. apply orb_true_r.
+Qed.
+
+(* ------------------------------------------------------------------ C10: no hang (progress) *)
+
+Definition cact_internal (a : cact) : bool := match a with CDisconnect | CSubOpen => false | _ => true end.
+
+Lemma internal_conn : forall c a, internal (Conn c a) = cact_internal a.
+Proof. destruct a; reflexivity. Qed.
+
+Lemma set_first_head : forall k a b r, set_first (k, a) (k, b) ((k, a) :: r) = Some ((k, b) :: r).
+Proof. intros. simpl. rewrite task_eqb_refl. reflexivity. Qed.
+
+Lemma conn_progress : forall x, cinv x -> c_phase x <> PDone ->
+  exists a, cact_internal a = true /\ cstep true x a <> None.
+Proof.
+  intros [kd inb tk q w ph wr ws cl tok sb] I D. unfold cinv in I. simpl in *.
+  destruct kd.
+  - (* HTTP *)
+    destruct I as (I1 & I2 & I3 & I4 & I5 & I6 & I7).
+    destruct ph; try congruence.
+    + exists CSeeStop. split; auto. simpl. destruct (is_nil tk); discriminate.
+    + destruct tk as [|[k ts] r]; [exfalso; apply I6; auto |].
+      destruct r; [| simpl in I3; lia].
+      destruct ts.
+      * exists (CStart k). split; auto. unfold cstep. simpl c_tasks. rewrite set_first_head. discriminate.
+      * exists (CFinish k). split; auto. unfold cstep. simpl c_tasks. rewrite set_first_head. discriminate.
+      * exists CWrite. split; auto. simpl. discriminate.
+  - (* WS *)
+    destruct I as (I1 & I2 & I3 & I4 & I5).
+    destruct ph; try congruence.
+    + exists CSeeStop. split; auto. simpl. discriminate.
+    + destruct tk as [|[k ts] r].
+      * exists CGracefulEnd. split; auto. simpl. discriminate.
+      * destruct ts.
+        -- exists (CStart k). split; auto. unfold cstep. simpl c_tasks. rewrite set_first_head. discriminate.
+        -- exists (CFinish k). split; auto. unfold cstep. simpl c_tasks. rewrite set_first_head. discriminate.
+        -- exists (CEnqueue k). split; auto. unfold cstep. simpl c_kind. simpl c_tasks. simpl remove_first.
+           rewrite task_eqb_refl. destruct wr; discriminate.
+    + assert (S : ws = true) by (apply I2; auto). subst.
+      destruct wr.
+      * destruct q.
+        -- exists CWriterStop. split; auto. simpl. discriminate.
+        -- exists CWrite. split; auto. simpl. destruct cl; discriminate.
+      * exists CBgDone. split; auto. simpl. discriminate.
+Qed.
+
+Lemma forallb_false_nth : forall A (p : A -> bool) l, forallb p l = false -> exists n x, nth_error l n = Some x /\ p x = false.
+Proof.
+  induction l; simpl; intros; try discriminate.
+  destruct (p a) eqn:E.
+  - simpl in H. destruct (IHl H) as (n & x & N1 & P). exists (S n), x. auto.
+  - exists 0, a. auto.
+Qed.
+
+Lemma no_hang : forall tr, let s := run init tr in
+  sig s = true -> all_dropped s = false -> exists a, internal a = true /\ effective s a = true.
+Proof.
+  intros tr s Sg D.
+  pose proof (run_sinv tr init sinv_init) as (I1 & I2 & I3 & I4). fold s in I1, I2, I3, I4.
+  destruct (s_accept s) eqn:A.
+  - exists AcceptSeeStop. split; auto. unfold effective, step. rewrite A, Sg. reflexivity.
+  - (* draining *)
+    destruct (forallb phase_done (s_conns s)) eqn:F.
+    + destruct (forallb (fun x => negb (c_tok x)) (s_conns s)) eqn:T.
+      * exists AcceptDone. split; auto. unfold effective, step. rewrite A, T. reflexivity.
+      * destruct (forallb_false_nth _ _ _ T) as (n & x & N1 & P).
+        exists (Conn n CHyperDone). split; auto. rewrite effective_conn, N1.
+        assert (Dn : c_phase x = PDone) by (apply phase_done_eq; eapply forallb_nth; eauto).
+        destruct (done_conn x (Forall_nth _ _ _ _ _ I1 N1) Dn) as (_ & _ & _ & _ & K).
+        unfold cstep. destruct (c_kind x).
+        -- rewrite (K eq_refl) in P. discriminate.
+        -- destruct (c_tok x); auto. discriminate.
+    + destruct (forallb_false_nth _ _ _ F) as (n & x & N1 & P).
+      assert (Dn : c_phase x <> PDone) by (intro Z; apply phase_done_eq in Z; congruence).
+      destruct (conn_progress x (Forall_nth _ _ _ _ _ I1 N1) Dn) as (a & Ia & St).
+      exists (Conn n a). rewrite internal_conn. split; auto. rewrite effective_conn, N1, Sg.
+      destruct (cstep true x a); auto. congruence.
+  - (* accept loop has returned: some connection is not done *)
+    unfold all_dropped, accept_done in D. rewrite A in D. simpl in D.
+    destruct (forallb_false_nth _ _ _ D) as (n & x & N1 & P).
+    assert (Dn : c_phase x <> PDone) by (intro Z; apply phase_done_eq in Z; congruence).
+    destruct (conn_progress x (Forall_nth _ _ _ _ _ I1 N1) Dn) as (a & Ia & St).
+    exists (Conn n a). rewrite internal_conn. split; auto. rewrite effective_conn, N1, Sg.
+    destruct (cstep true x a); auto. congruence.
+Qed.
+
+Lemma stopped_enabled : forall s, all_dropped s = true -> s_resolved s = false -> s_handles s <> 0 ->
+  effective s StoppedResolves = true.
+Proof.
+  intros s D R H. unfold effective, step. destruct (s_handles s); try congruence. rewrite D, R. reflexivity.
 Qed.
